@@ -435,6 +435,8 @@ class PageLayout(object):
         print_space_width = 0
         print_space_vpos = self.page_size[0]
         print_space_hpos = self.page_size[1]
+        print_space_bottom = 0
+        print_space_right = 0
 
         for b, block in enumerate(self.regions):
             text_block = ET.SubElement(print_space, "TextBlock")
@@ -446,12 +448,12 @@ class PageLayout(object):
             text_block.set("VPOS", str(int(text_block_vpos)))
             text_block.set("HPOS", str(int(text_block_hpos)))
 
-            print_space_height = max([print_space_vpos + print_space_height, text_block_vpos + text_block_height])
-            print_space_width = max([print_space_hpos + print_space_width, text_block_hpos + text_block_width])
+            print_space_bottom = max([print_space_bottom, text_block_vpos + text_block_height])
+            print_space_right = max([print_space_right, text_block_hpos + text_block_width])
             print_space_vpos = min([print_space_vpos, text_block_vpos])
             print_space_hpos = min([print_space_hpos, text_block_hpos])
-            print_space_height = print_space_height - print_space_vpos
-            print_space_width = print_space_width - print_space_hpos
+            print_space_height = print_space_bottom - print_space_vpos
+            print_space_width = print_space_right - print_space_hpos
 
             for l, line in enumerate(block.lines):
                 if not line.transcription or line.transcription.strip() == "":
